@@ -51,6 +51,41 @@ def gen_style(rng):
     return " ".join(parts)
 
 
+def gen_base(rng):
+    st = gen_style(rng)
+    if rng.random() < 0.4:
+        st = (st + " " + rng.choice(["not bold", "not italic", "not underline", "bold", "red", "on blue", "link https://base.example/x"])).strip()
+    return st
+
+
+def combine_keys(base, span):
+    """Right-biased combination of two style strings, as (true attrs, fg codes, bg codes, link):
+    the span wins wherever it says something."""
+    from rich.style import Style
+
+    b, s = Style.parse(base) if base else Style.null(), Style.parse(span) if span else Style.null()
+    attrs = []
+    for a in ATTRS:
+        v = getattr(s, a)
+        if v is None:
+            v = getattr(b, a)
+        if v:
+            attrs.append(a)
+
+    def ck(c):
+        return None if c is None or c.is_default else tuple(c.get_ansi_codes())
+
+    fg = s.color if s.color is not None else b.color
+    bg = s.bgcolor if s.bgcolor is not None else b.bgcolor
+    link = s.link if s.link is not None else b.link
+    bgk = ck(bg)
+    if bgk is not None:
+        from rich.color import Color
+
+        bgk = tuple(bg.get_ansi_codes(foreground=False))
+    return (tuple(attrs), ck(fg), bgk, link)
+
+
 def gen_line(rng, token, width):
     """A styled line: list of [text, style]; total cell width <= width."""
     pieces = [[token, gen_style(rng) if rng.random() < 0.5 else ""]]
@@ -109,13 +144,13 @@ def encode_sgr(items):
 def style_key(st):
     """(true attributes, color, bgcolor, link) of a rich Style."""
     attrs = tuple(a for a in ATTRS if getattr(st, a))
-    def ck(c):
+    def ck(c, fg=True):
         # a colour is identified by what the encoder would write for it: (38, 5, 16) and the
         # invalid "standard colour 16" (which would be written as SGR 98) are different colours
         if c is None or c.is_default:
             return None
-        return tuple(c.get_ansi_codes())
-    return (attrs, ck(st.color), ck(st.bgcolor), st.link)
+        return tuple(c.get_ansi_codes(foreground=fg))
+    return (attrs, ck(st.color), ck(st.bgcolor, False), st.link)
 
 
 class C19:
@@ -138,7 +173,10 @@ class C19:
         thorough = tier == "thorough"
         if rng.random() < 0.25:
             texts = [gen_line(rng, "R%dz" % i, 200) for i in range(rng.randint(1, 12))]
-            return {"kind": "rt", "cfg": {"auto_refresh": False}, "texts": texts}
+            # half of the texts also get a base style (spans win over it where both speak) and are
+            # printed through a truecolor console rather than encoded piece by piece
+            bases = [gen_base(rng) if rng.random() < 0.5 else None for _ in texts]
+            return {"kind": "rt", "cfg": {"auto_refresh": False}, "texts": texts, "bases": bases}
         W = rng.choice([24, 40, 60])
         cfg = {"width": W, "height": rng.choice([6, 10]), "display": rng.choice(["live", "progress"]),
                "auto_refresh": rng.random() < 0.4, "rps": rng.choice([4, 20]), "transient": rng.random() < 0.3,
@@ -174,6 +212,13 @@ class C19:
             enc = [self._encode(cfg, ln) for ln in chans[ch]]
             s = "".join(e + "\n" for e in enc)
             streams[ch] = s
+        # some streams end in a partial line (no newline, no flush): it must come out, as a line
+        # of its own, before the display takes its last frame
+        tails = {}
+        for ch in "oe":
+            if not wide and rng.random() < 0.3:
+                tails[ch] = "T%s9z tail %s" % (ch, rng.choice(WORDS[:3]))
+                streams[ch] += tails[ch]
         cuts = {}
         # swarm: tear density from "the whole stream in one write" to "every few characters"
         density = rng.choice([0, 40, 12, 12, 4])
@@ -233,7 +278,18 @@ class C19:
             for i in range(len(case["texts"]) - 1, -1, -1):
                 c = copy.deepcopy(case)
                 del c["texts"][i]
+                if c.get("bases"):
+                    del c["bases"][i]
                 yield c
+            for i, b in enumerate(case.get("bases") or []):
+                if b:
+                    parts = b.split(" ")
+                    for k in range(len(parts)):
+                        if parts[k] in ("on", "link", "not") or (k > 0 and parts[k - 1] in ("on", "link", "not")):
+                            continue
+                        c = copy.deepcopy(case)
+                        c["bases"][i] = " ".join(parts[:k] + parts[k + 1:]) or None
+                        yield c
             for i, t in enumerate(case["texts"]):
                 for j in range(len(t) - 1, -1, -1):
                     if len(t) > 1:
@@ -287,6 +343,7 @@ class RoundTrip:
         self.case = case
         self.viol = []
         self.n = 0
+        self.with_base = 0
         sim.spawn(self.body, "c0")
 
     def body(self):
@@ -295,8 +352,22 @@ class RoundTrip:
 
         with self.sim.atomic():
             dec = AnsiDecoder()
-            for pieces in self.case["texts"]:
-                enc = encode_pieces(pieces)
+            bases = self.case.get("bases") or [None] * len(self.case["texts"])
+            for pieces, base in zip(self.case["texts"], bases):
+                if base is None:
+                    enc = encode_pieces(pieces)
+                else:
+                    import io as _io
+                    from rich.console import Console as _Console
+                    from rich.text import Text as _Text
+
+                    tx = _Text(style=base, end="")
+                    for t, st in pieces:
+                        tx.append(t, style=st or None)
+                    pc = _Console(file=_io.StringIO(), width=10000, force_terminal=True, color_system="truecolor", _environ={})
+                    pc.print(tx, end="")
+                    enc = scrub_links(pc.file.getvalue())
+                    self.with_base += 1
                 text = dec.decode_line(enc)
                 want_plain = "".join(t for t, _ in pieces)
                 if text.plain != want_plain:
@@ -305,7 +376,10 @@ class RoundTrip:
                 # per character expected style key
                 exp = []
                 for t, st in pieces:
-                    k = style_key(Style.parse(st)) if st else ((), None, None, None)
+                    if base is None:
+                        k = style_key(Style.parse(st)) if st else ((), None, None, None)
+                    else:
+                        k = combine_keys(base, st)
                     exp.extend([k] * len(t))
                 from rich.console import Console
 
@@ -327,7 +401,7 @@ class RoundTrip:
         for t in self.sim.threads:
             if t.exc is not None:
                 v.append({"oracle": "exception", "sig": "exception:" + type(t.exc).__name__, "msg": (t.tb or "")[-600:], "seq": 0})
-        return {"violations": v, "faults": {}, "probes": {"roundtrip_chars": self.n, "roundtrip_texts": len(self.case["texts"])},
+        return {"violations": v, "faults": {}, "probes": {"roundtrip_chars": self.n, "roundtrip_texts": len(self.case["texts"]), "roundtrip_printed_with_base_style": self.with_base},
                 "nontrivial": len(self.case["texts"]) > 0, "sample": {"kind": "rt", "texts": self.case["texts"][:2]}}
 
 
@@ -357,7 +431,7 @@ class Proxy:
         self.frame_rows = None
         self.probes = {"writes_torn_in_escape": 0, "empty_writes": 0, "multi_newline_writes": 0, "flushes": 0,
                        "flush_on_empty": 0, "flush_partial": 0, "flush_skipped_esc": 0, "lines_completed": 0,
-                       "stderr_lines": 0, "writes_with_3plus_lines_and_prefix": 0, "lines_torn_3plus": 0, "wide_lines": 0}
+                       "stderr_lines": 0, "partial_at_stop": 0, "writes_with_3plus_lines_and_prefix": 0, "lines_torn_3plus": 0, "wide_lines": 0}
         self.stdout_sentinel, self.stderr_sentinel = sys.stdout, sys.stderr
         if cfg["display"] == "live":
             from rich.live import Live
@@ -426,7 +500,17 @@ class Proxy:
                     self.do(ev)
                 if o.tracker:
                     o.tracker.stop_begin()
-                o.begin_op("stop", [("final",), ("erase",) if self.cfg["transient"] else ("freeze",)])
+                stages = [("final",), ("erase",) if self.cfg["transient"] else ("freeze",)]
+                tail_stages = []
+                for ch in "oe":  # stop() flushes stdout, then stderr
+                    p = self.pending[ch]
+                    if p and "\x1b" not in p:
+                        self.probes["partial_at_stop"] += 1
+                        scr = term.Screen(self.cfg["width"], 1000)
+                        scr.feed(p + "\n")
+                        tail_stages.append(("print", [scr.cells(r) for r in range(scr.row)]))
+                        self.pending[ch] = ""
+                o.begin_op("stop", tail_stages + stages)
         finally:
             o.end_op()
             if o.tracker:
